@@ -123,6 +123,12 @@ def _process_item(kind, head, sub, meta, occ=None):
             elif c == "}":
                 depth -= 1
         k = b
+        closers = ""
+        if exclusive and depth > 0:
+            # `..<` inside a nested block: the statements from the end anchor on are DROPPED (D2) and the blocks the
+            # fragment opened are closed synthetically
+            closers = "\n" + "}" * depth
+            depth = 0
         while depth > 0 and k < f["end"] - 1:
             c = m[k]
             if c == "{":
@@ -132,7 +138,7 @@ def _process_item(kind, head, sub, meta, occ=None):
             k += 1
         if depth == 0:
             b = k
-        text = src[a:b]
+        text = src[a:b] + closers
         body_open_rel = None
     elif kind == "arm":
         t = _ticks(head)
